@@ -78,6 +78,24 @@ def run(ctx) -> None:
     r = upc.reach(ucfg.node_containing(tu[0]))
     ctx.check("R1", r.implies(~BF.var("dry")), "update: _try_update only when not dry", "cli.update: the real update runs under --dry", r.project(["dry"]).to_dnf(), loc=upd.loc(tu[0]))
 
+    # everything the real run evaluates before the update step is also evaluated by the dry run:
+    # between the dry return and the _try_update call nothing may be computed (it could fail only in the real run)
+    dry_tests = [n for n in ucfg.nodes if n.kind == "test" and unparse(n.ast) == "dry"]
+    tnode = ucfg.node_containing(tu[0])
+    last_dry = [n for n in dry_tests if tnode in ucfg.reachable(n.id) and any(lab == ("F", n.id) for _d, lab in ucfg.succ[n.id])]
+    ctx.require(last_dry, "update: no `dry` test precedes _try_update")
+    ld = max(last_dry, key=lambda n: n.lineno)
+    between = set()
+    for dst, lab in ucfg.succ[ld.id]:
+        if lab == ("F", ld.id):
+            between |= ucfg.reachable(dst)
+    between = {nid for nid in between if tnode in ucfg.reachable(nid) and nid != tnode}
+    risky = [ucfg.nodes[nid] for nid in sorted(between) if ucfg.nodes[nid].ast is not None and any(isinstance(x, (ast.Call, ast.Subscript)) for x in ast.walk(ucfg.nodes[nid].ast))]
+    ctx.check("R1", not risky, "update: nothing is computed between the --dry return and the real update (the dry run evaluates everything the real run does before rewriting)",
+              "cli.update: the real run evaluates expressions that the --dry run skips (dry exits 0, the real run can fail before rewriting)",
+              f"between `if dry: return` (L{ld.lineno}) and _try_update: {[n.text()[:50] for n in risky[:3]]}", loc=upd.loc(risky[0].ast) if risky else upd.loc(),
+              witness={"commit_message": "bump {new_versoin}"})
+
     # ---------------------------------------------------------------- R2
     n_points = 0
     for rw, ver, getdiff in ENGINES:
@@ -129,6 +147,19 @@ def run(ctx) -> None:
         ok = len(rep_d) == 1 and len(rep_i) == 1 and _open_kwargs(rep_d[0])["path"] == f"str({unparse(ld.target.elts[0])})" and _open_kwargs(rep_i[0])["path"] == f"str({unparse(li.target.elts[0])})"
         n_points += 1
         ctx.check("R2", ok, f"{rw}: both paths label the record with str(file_path)", f"{rw}: diff and write path label records differently", "", loc=d.loc())
+        # (4b) every file of the loop contributes its diff: no iteration skips the accumulation
+        dg = cfgs.get(d.fq)
+        acc = [n for n in dg.nodes if n.kind == "stmt" and isinstance(n.ast, ast.AugAssign) and isinstance(n.ast.op, ast.Add) and n.id in dg.reachable()
+               and any(sub is ld for sub in shapes.enclosing_loops(d, n.ast))]
+        ctx.require(len(acc) == 1, f"{rw}.diff: accumulation of per-file diffs not found")
+        it_node = [n for n in dg.nodes if n.kind == "iter" and n.stmt is ld]
+        ctx.require(len(it_node) == 1, f"{rw}.diff: file loop header not found")
+        body_first = [dst for dst, lab in dg.succ[it_node[0].id] if lab == ("iter", "next")]
+        skipped = any(it_node[0].id in dg.reachable(b, blocked_nodes=[acc[0].id], skip_exc=True) for b in body_first)
+        n_points += 1
+        ctx.check("R2", not skipped, f"{rw}.diff: every configured file contributes its diff (no iteration skips the accumulation)",
+                  f"{rw}.diff: the printed diff can omit a file that the real run rewrites", "a path through the file loop reaches the next iteration without appending the file's diff", loc=d.loc(ld),
+                  witness="a stale file whose patterns render identically for old and new version")
         # (5) the diff shows old_lines -> new_lines of that record
         dlf = prog.function("rewrite.diff_lines")
         ud = [c for c in ast.walk(dlf.node) if isinstance(c, ast.Call) and unparse(c.func).endswith("unified_diff")]
